@@ -336,6 +336,11 @@ class HierDictDocument(DictDocument):
 
             return retval
 
+        if not issubclass(cls, ComplexModelBase):
+            # the argument of a bare method can be of a simple type.
+            return self._from_dict_value(ctx, cls.get_type_name(), cls, doc,
+                                                                      validator)
+
         cls_attrs = self.get_cls_attrs(cls)
         if not self.ignore_wrappers and not cls_attrs.not_wrapped:
             if not isinstance(doc, dict):
